@@ -5,7 +5,7 @@
 //! ops : L fam n ix* | R fam res n ix* | P fam ix | C fam | K fam res | G fam | Q fam res | B res | E res
 //!       E res: trip the breaker of the resource (an entry that fails; needs a rule of key 11), wait for the retry
 //!       time, then build an entry that the breaker admits as its probe and a later slot rejects
-//!       fam: 0 flow, 1 hotspot, 2 breaker, 3 isolation, 4 system (L, C, G only)
+//!       fam: 0 flow, 1 hotspot, 2 breaker, 3 isolation, 4 system (L, P, C, G only)
 //! out : verdict(0 finished, 1 deadlock) npanics (tid)* ; nhealth (ok)* ; nprofile (lock mode heldmask)*
 //!       the profile (lock about to be taken, locks held then) is reported for single-thread cases only
 use crate::sched;
@@ -213,8 +213,11 @@ fn exec(op: &Op) {
             2 => {
                 cb::append_rule(cb_rule(p));
             }
-            _ => {
+            3 => {
                 isolation::append_rule(iso_rule(p));
+            }
+            _ => {
+                system::append_rule(sys_rule(p));
             }
         },
         Op::C(f) => match f {
